@@ -325,10 +325,15 @@ impl Highlighter {
             cancellation_flag,
             highlighter: self,
             iter_count: 0,
-            layers,
+            layers: Vec::with_capacity(layers.len()),
             next_event: None,
             last_highlight_range: None,
         };
+        // The layers for combined injections come in the order of their patterns,
+        // not of their contents, so put every layer in its place.
+        for layer in layers {
+            result.insert_layer(layer);
+        }
         result.sort_layers();
         Ok(result)
     }
